@@ -449,6 +449,8 @@ Inductive event := EGet (v : str) | ERange (ls : list label).
 
 Record lobs := mkO {
   o_range : list label; o_len : Z; o_empty : bool; o_str : str; o_bytes : str; o_hash : Z;
+  o_stable : Z;                     (* labels.StableHash *)
+  o_sref : Z;                       (* oracle: xxhash64 of hash_input (o_range), evaluated by the harness *)
   o_gets : list (str * bool)        (* per probe name: Get, Has *)
 }.
 Record transcript := mkT {
@@ -578,7 +580,7 @@ Definition observe1 (l : L I) : res lobs :=
   let* n := l_len I l in
   let* b := l_bytes I l in
   let* g := mapM (fun p => let* v := l_get I l p in let* h := l_has I l p in Ok (v, h)) probes in
-  Ok (mkO r n (l_isempty I l) (labels_string q r) b 0 g).
+  Ok (mkO r n (l_isempty I l) (labels_string q r) b 0 0 0 g).
 
 Definition observe (m : mstate I) : res transcript :=
   let regs := m_regs I m in
